@@ -40,11 +40,11 @@ def gen_chain(rng, k, B):
             for _ in range(len(flat(srecs)) // 16 + 4):
                 ops += [[0, 10 ** 6], [2, 10 ** 6], [4, 10 ** 6], [3]]
         if j + 1 < k:
-            ops.append([6, "REL%d" % j])
+            ops.append([6, "REL%d" % j] + ([1] if rng.random() < 0.4 else []))
     ops.append(rng.choice([[8], [0, 0], [3]]))
     # the client releases request j+1 only after request j was closed
     for o in ops:
-        if len(o) == 2 and isinstance(o[1], str):
+        if len(o) >= 2 and isinstance(o[1], str):
             j = int(o[1][3:])
             o[1] = ends[j + 1] - ends[j]
     return flat(recs_all), ops, meta, ends[0]
@@ -94,7 +94,7 @@ def gen_maxrecord_cases(rng, tier):
             w = flat(recs) + nxt
             first = len(flat(minimal_preamble(1, 1)))
             # the client sends the whole of request 1 at once; the stream parser is converted back without reading anything
-            ops = [[6, len(nxt)], [8]]
+            ops = [[6, len(nxt), 1], [8]]      # close-like hand-off: no parse when already at a record boundary
             yield "str_run " + " ".join(fmt_arg(x) for x in [[B, len(flat(recs))], [3], w] + ops), ["chain", "k2", "max-record"]
 
 
